@@ -392,6 +392,7 @@ impl SyncWorld {
                 LocalAccount::new_unauthenticated(account_id, target).await?;
             let key: AccessKey = password.clone().into();
             account.sign_in(&key).await?;
+            account.initialize_search_index().await?;
             devices.push(SyncDevice {
                 name: n.clone(),
                 root,
@@ -734,6 +735,18 @@ pub async fn run_path(
                 world.check_c02(i, &mut c02).await?;
                 if prop == "C02" || prop == "C05" {
                     for p in c02 {
+                        out.violation(format!("{p} (after step {n} Sync {args})"), detail.clone());
+                        failed = true;
+                    }
+                }
+                if prop == "C20" {
+                    let mut c20 = Vec::new();
+                    {
+                        let account = world.devices[i].account.lock().await;
+                        crate::account_world::c20_check(&*account, &world.devices[i].name, &mut c20)
+                            .await?;
+                    }
+                    for p in c20 {
                         out.violation(format!("{p} (after step {n} Sync {args})"), detail.clone());
                         failed = true;
                     }
